@@ -13,6 +13,8 @@ func init() {
 		ruleDef{"C12.R3", c12r3},
 		ruleDef{"C12.R5", c12r5},
 		ruleDef{"C12.R6", c12r6},
+		// a flow-control error edge must not re-acquire the connection mutex it is decided under (finding D7)
+		ruleDef{"C12.R8", func(r *R) { lockNotReentered(r, "C12.R8", true) }},
 	)
 }
 
